@@ -15,11 +15,33 @@ fn enc_val(v: Option<&[u8]>) -> Vec<i128> {
     }
 }
 
+/// The verdict and every accessor result may depend on the bytes only: the same bytes are presented at the four
+/// possible addresses modulo 4 (the header is an array of u32 words); a difference is reported as [96, k].
 pub fn run(line: &str) -> Obs {
     let t: Vec<&str> = line.split_whitespace().collect();
-    let data = unhex(t[0]);
+    let bytes = unhex(t[0]);
+    let mut first: Option<Obs> = None;
+    for k in 0..4usize {
+        let mut buf = vec![0u8; bytes.len() + 8];
+        let base = buf.as_ptr() as usize;
+        let off = (k + 4 - base % 4) % 4;
+        buf[off..off + bytes.len()].copy_from_slice(&bytes);
+        let o = run_at(&buf[off..off + bytes.len()], &t);
+        match &first {
+            None => first = Some(o),
+            Some(f) => {
+                if *f != o {
+                    return vec![vec![96, k as i128]];
+                }
+            }
+        }
+    }
+    first.unwrap()
+}
+
+fn run_at(data: &[u8], t: &[&str]) -> Obs {
     let mut obs: Obs = Vec::new();
-    let view = match catch(|| MessageView::new((&data[..]).into())) {
+    let view = match catch(|| MessageView::new(data.into())) {
         Err(_) => return vec![vec![99]],
         Ok(Err(e)) => {
             let c = match e {
@@ -39,7 +61,7 @@ pub fn run(line: &str) -> Obs {
         let mut o: Obs = Vec::new();
         o.push(vec![view.len() as i128]);
         assert_eq!(view.is_empty(), view.len() == 0);
-        assert_eq!(view.inner().as_ref(), &data[..]);
+        assert_eq!(view.inner().as_ref(), data);
         let tags: Vec<Tag> = view.tags().to_vec();
         o.push(tags.iter().map(|t| t.value() as i128).collect());
         assert!(view.tags_match_exactly(tags.iter().copied()));
